@@ -249,7 +249,8 @@ def emitInnerN (st : NState α) : Step (NState α) (List α) :=
   let ss := initBufs st
   innerLoop key (totalRest ss + 1) ss
 
-/-- full_join_multiple:117-126, slot `i` of the row: the buffered element if it is at the minimum key `m`. -/
+/-- full_join_multiple:117-126 (and left_join_multiple:105-108 with `m` = the left key), slot `i` of the row: the
+buffered element if its key is `m`. -/
 def slotAt (m : Int) (s : Src α) : Option α :=
   match s.buf with
   | some b => if key b == m then some b else none
